@@ -791,6 +791,8 @@ def Expr.nfInv : Expr → Prop
     body.nfInv ∧ bcc = [] ∧ k ≤ 1 ∧ (k = 0 → body.before = []) ∧ n ≠ [';'] ∧ Alt b ∧ Alt a
   | .un op e _ bt b a => e.nfInv ∧ e.before = [] ∧ bt = [] ∧ op ≠ [';'] ∧ Alt b ∧ Alt a
   | .bin op l r _ _ b a => l.nfInv ∧ l.before = [] ∧ r.nfInv ∧ r.before = [] ∧ op ≠ [';'] ∧ Alt b ∧ Alt a
+  | .ite .. => False
+  | .has .. => False
 def allNfInv : List Expr → Prop
   | [] => True
   | e :: rest => e.nfInv ∧ allNfInv rest
@@ -817,6 +819,8 @@ def Expr.inlineClean : Expr → Prop
   | .un _ e _ _ _ _ => e.inlineClean
   -- at most one blank line in front of / after a binary operator (`cex_blank_lines_around_operator`)
   | .bin _ l r ogl rgl _ _ => ogl ≤ 2 ∧ rgl ≤ 2 ∧ l.inlineClean ∧ r.inlineClean
+  | .ite .. => False
+  | .has .. => False
 def allInlineClean : List Expr → Prop
   | [] => True
   | e :: rest => e.inlineClean ∧ allInlineClean rest
